@@ -10,7 +10,7 @@ package main
 // return) reads the fields non-atomically, so it is an access too.
 //
 // For every function of the module the translator lists, in source order,
-//   (pkg.Func, code, kind text)   kind = "atomic" (code 0) | "plain-local", "copy-local" (code 1) | "plain-shared", "copy-shared" (code 2)
+//   (pkg.Func, code, kind text)   kind = "atomic" (code 0) | "plain-local", "copy-local", "store-local" (code 1) | "plain-shared", "copy-shared", "store-shared" (code 2)
 // and Lean (Props/C14) decides that no entry has code 2.  Types come from go/types run over
 // the module's own packages (imports from outside the module are left unresolved: an atomic field
 // is always a field of a struct declared in the module).
@@ -424,6 +424,17 @@ func atomicUsesOf(fset *token.FileSet, p *modPkg, fd *ast.FuncDecl, atomicField 
 			for _, r := range s.Rhs {
 				copyOf(r, "assign")
 			}
+			// a plain STORE into a variable that holds atomic fields (x = T{}, arr[i] = v, *p = v)
+			if s.Tok != token.DEFINE {
+				for _, l := range s.Lhs {
+					if id, ok := l.(*ast.Ident); ok && id.Name == "_" {
+						continue
+					}
+					if tv, ok := info.Types[l]; ok && isValue(tv.Type) && holds(tv.Type, 0) {
+						add(l.Pos(), "store-"+rootClass(l), "assign-to "+types.ExprString(l))
+					}
+				}
+			}
 		case *ast.ValueSpec:
 			for _, r := range s.Values {
 				copyOf(r, "var")
@@ -441,8 +452,16 @@ func atomicUsesOf(fset *token.FileSet, p *modPkg, fd *ast.FuncDecl, atomicField 
 				}
 			}
 		case *ast.CallExpr:
-			for _, a := range s.Args {
-				copyOf(a, "argument")
+			builtin := false
+			if id, ok := s.Fun.(*ast.Ident); ok {
+				if _, isB := info.Uses[id].(*types.Builtin); isB && (id.Name == "len" || id.Name == "cap") {
+					builtin = true // len / cap of an array do not read its elements
+				}
+			}
+			if !builtin {
+				for _, a := range s.Args {
+					copyOf(a, "argument")
+				}
 			}
 			if fs, ok := s.Fun.(*ast.SelectorExpr); ok {
 				if sel := info.Selections[fs]; sel != nil && sel.Kind() == types.MethodVal {
